@@ -14,12 +14,14 @@ REQUIRED = [
     "orders_match_header", "order_setOrder", "legal_orders", "setOrder_order", "real_order_eq_model",
     "real_angleOrder_eq_model", "real_angleMapping_eq_model", "angleOrder_permutation", "angleMapping_inverts_angleOrder",
     "toXYZVector_slots", "toXYZVector_setXYZVector", "setXYZVector_toXYZVector", "ctor_layouts", "toXYZVector_ctorXYZLayout",
-    "toMatrix44_eq_embed_toMatrix33", "toMatrix33_eq_spec", "toMatrix33_orthonormal_det_one", "toQuat_eq_spec", "toQuat_unit",
+    "toM33_raw", "toQuat_raw", "toMatrix44_eq_embed_toMatrix33", "toMatrix33_eq_spec", "toMatrix33_orthonormal_det_one", "toQuat_eq_spec", "toQuat_unit",
     "toQuat_toMatrix33_eq_toMatrix33", "toMatrix44_XYZ_eq_setEulerAngles",
     "extract_M44_eq_extract_M33", "extract_Quat_eq", "ctor_matrix_eq_extract", "reorder_ctor_eq",
     "flip_same_rotation", "simpleXYZRotation_preserves", "simpleXYZRotation_within_pi", "makeNear_preserves_rotation",
     "makeNear_within_pi", "nearestRotation_preserves_rotation", "nearestRotation_within_pi",
     "angleMod_in_range", "angleMod_congruent", "angleMod_driver_instance",
+    "extract_toMatrix33_static", "extract_toMatrix33_rotating", "extract_toMatrix33_static_rep", "extract_toMatrix33_rotating_rep",
+    "extractEulerXYZ_eq_member", "extractEulerZYX_eq_member",
     "extract_inverts_toMatrix33_partial", "toMatrix33_extract_roundtrip_partial", "extract_inverts_toMatrix44_partial",
     "extract_inverts_toQuat_partial", "extractEulerXYZ_inverts_setEulerAngles", "extractEulerZYX_inverts_builder",
     "extractEuler_inverts_setRotation",
@@ -28,7 +30,13 @@ REQUIRED = [
 # which residue sections can falsify which theorem (search for a concrete failing input)
 SECTIONS = {
     "toMatrix44_eq_embed_toMatrix33": ["toMatrix44-embed", "toMatrix44-vs-spec", "toMatrix33-vs-spec"],
-    "toMatrix33_eq_spec": ["toMatrix33-vs-spec"],
+    "toMatrix33_eq_spec": ["toMatrix33-vs-spec"], "toM33_raw": ["toMatrix33-vs-spec"], "toM33_raw_toMat": ["toMatrix33-vs-spec"],
+    "toQuat_raw": ["toQuat-vs-spec"],
+    "extract_toMatrix33_static": ["extract-roundtrip", "extract-toMatrix-real", "toMatrix33-vs-spec"],
+    "extract_toMatrix33_rotating": ["extract-roundtrip", "extract-toMatrix-real", "toMatrix33-vs-spec"],
+    "extract_toMatrix33_static_rep": ["extract-roundtrip", "extract-toMatrix-real", "toMatrix33-vs-spec"],
+    "extract_toMatrix33_rotating_rep": ["extract-roundtrip", "extract-toMatrix-real", "toMatrix33-vs-spec"],
+    "extractEulerXYZ_eq_member": ["extractEulerXYZ"], "extractEulerZYX_eq_member": ["extractEulerZYX"],
     "toMatrix33_orthonormal_det_one": ["toMatrix33-vs-spec"],
     "toQuat_eq_spec": ["toQuat-vs-spec"], "toQuat_unit": ["toQuat-vs-spec"],
     "toQuat_toMatrix33_eq_toMatrix33": ["toQuat-vs-spec", "toMatrix33-vs-spec"],
